@@ -85,7 +85,7 @@ def graphOracle (U : Universe) (P : Problem) (r : ImplSolve) : List String :=
     let o4 := if graphRefutes edges then [] else ["oracle-fail C03 not-a-refutation: the facts shown in the conflict graph (with one-solvable-per-package for forbid-joined nodes) allow a selection that installs the root"]
     o1 ++ o2 ++ o3 ++ o4 ++ [s!"info graph edges {edges.length} nodes {nodes.length}"]
 
-def oracleSolve (U : Universe) (P : Problem) (cfg : String) (r : ImplSolve) : List String :=
+def oracleSolve (U : Universe) (P : Problem) (cfg : String) (r : ImplSolve) (prior : List String := []) : List String :=
   let solvable := decideSolvable U P
   let info := [s!"info solvable {solvable} result {r.result}"] ++ (if r.result == "panic" || r.result == "abort" then [] else traceOracle U P r)
   let sync := cfgGet cfg "mode" == "sync"
@@ -110,7 +110,7 @@ def oracleSolve (U : Universe) (P : Problem) (cfg : String) (r : ImplSolve) : Li
           let ccalls := (r.calls.filter (·.startsWith "c")).map (fun c => nat! (c.drop 1).toString)
           let names := (namesOfDeps U P.reqs P.constraints ++ pref.flatMap (fun s => match U.deps s with
               | .known rs cs => namesOfDeps U rs cs | .unknown _ => [])).eraseDups
-          let ox := if sync && noHints U && cfgGet cfg "sortpeeks" != "1" then
+          let ox := if sync && prior.isEmpty && noHints U && cfgGet cfg "sortpeeks" != "1" then
               (if sameSet dcalls pref then [] else
                 [s!"oracle-fail C09 exact-deps: conflict-free problem, solution [{natList pref}], but get_dependencies was called for [{natList dcalls}]"]) ++
               (if sameSet ccalls names then [] else
@@ -137,10 +137,18 @@ def oracleSolve (U : Universe) (P : Problem) (cfg : String) (r : ImplSolve) : Li
   | other => info ++ [s!"oracle-fail C04,C10,C13 outcome: unexpected result {other}"]
   (
     -- C09 / C10 at-most-once on every outcome; causality for sync runs without hints
-    let d := match dupCalls r.calls with
-      | some c => [s!"oracle-fail C09,C10,C13 at-most-once: provider call {c} issued twice"]
+    let d := match dupCalls (prior ++ r.calls) with
+      | some c => [s!"oracle-fail C09,C10,C13 at-most-once: provider call {c} issued twice on this solver"]
       | none => []
-    let c := if sync && noHints U && !cfgGet cfg "sortpeeks" == "1" then
+    -- C11 / C10: asynchronous runs
+    let known := (prior.filter (·.startsWith "C")).map (fun w => nat! (w.drop 1).toString)
+    let c11 := if sync then [] else
+      (match c11Check U P r.events known with
+       | some why => [s!"oracle-fail C11 not-issued: {why}"]
+       | none => []) ++
+      (if r.result == "panic" && (r.resultArg.splitOn "DEADLOCK").length > 1 then
+        ["oracle-fail C10,C13 deadlock: the solver is pending but no provider request is outstanding"] else [])
+    let c := if sync && prior.isEmpty && noHints U && !cfgGet cfg "sortpeeks" == "1" then
         match causalCheck U P r.calls with
         | some why => [s!"oracle-fail C09 causal: {why}"]
         | none => []
@@ -164,22 +172,23 @@ def oracleSolve (U : Universe) (P : Problem) (cfg : String) (r : ImplSolve) : Li
             [s!"oracle-fail C12 call-after-cancel: provider request {afterObs.headD ""} was started after cancellation had been observed"] else []
         -- call-indexed plans: the signal goes up while request number j is served
         let o4 := if plan.startsWith "c" then
-            let j := nat! (plan.drop 1).toString
+            let jGlobal := nat! (plan.drop 1).toString
+            let before := (prior.filter isCall).length
             let callIdxs := (r.calls.zipIdx.filter (fun p => isCall p.1)).map (·.2)
-            match callIdxs[j]? with
+            let j := jGlobal - before
+            match (if jGlobal < before then none else callIdxs[j]?) with
             | some pos =>
               let later := (r.calls.drop (pos + 1)).filter isCall
               let transient := cfgGet cfg "transient" == "1"
+              -- (whether the solver polls again after its *last* request is not promised: a signal that goes
+              -- up during the last request of a solve may legitimately go unnoticed)
+              let _ := transient
               (if !later.isEmpty then
-                [s!"oracle-fail C12 request-after-signal: the cancellation signal went up during provider request number {j} but request {later.headD ""} was still started afterwards (no poll in between)"] else []) ++
-              (if !transient && r.result != "cancelled" && r.result != "panic" then
-                [s!"oracle-fail C12 signal-ignored: the cancellation signal went up during provider request number {j} and stayed up, but solve returned `{r.result}`"] else []) ++
-              (if transient && later.isEmpty && r.result != "cancelled" && r.result != "panic" then
-                [s!"oracle-fail C12 signal-ignored: the (transient) signal was up until the next provider request; none followed, yet solve returned `{r.result}`"] else [])
+                [s!"oracle-fail C12 request-after-signal: the cancellation signal went up during provider request number {jGlobal} but request {later.headD ""} was still started afterwards (no poll in between)"] else [])
             | none => []
           else []
         o1 ++ o2 ++ o3 ++ o4
-    ls ++ d ++ c ++ c12)
+    ls ++ d ++ c ++ c12 ++ c11)
 
 def parseF32 (s : String) : Float32 :=
   match s.splitOn "." with
@@ -230,7 +239,7 @@ def runSolve (lines : List String) : List String :=
   else
     let impls := parseImpl implLines
     let sync := cfgGet cfg "mode" == "sync" && cfgGet cfg "sortpeeks" != "1"
-    let rec go (ps : List Problem) (is : List ImplSolve) (k : Nat) (ms : Resolvo.MDet.S) (acc : List String) : List String :=
+    let rec go (ps : List Problem) (is : List ImplSolve) (k : Nat) (ms : Resolvo.MDet.S) (prior : List String) (acc : List String) : List String :=
       match ps, is with
       | p :: ps', i :: is' =>
         let md := if sync then
@@ -245,8 +254,8 @@ def runSolve (lines : List String) : List String :=
               | .stop _ => ["info checked stop"]
             (mdetCompare o newLog (ms'.trace.reverse.map Resolvo.MDet.evLine) i ++ chk, ms')
           else ([], ms)
-        go ps' is' (k + 1) md.2 (acc ++ [s!"solve {k}"] ++ oracleSolve U p cfg i ++ md.1)
+        go ps' is' (k + 1) md.2 (prior ++ i.calls) (acc ++ [s!"solve {k}"] ++ oracleSolve U p cfg i prior ++ md.1)
       | _, _ => acc
-    go probs impls 0 (mdetInit cfg) []
+    go probs impls 0 (mdetInit cfg) [] []
 
 end Resolvo.Drv
